@@ -17,15 +17,24 @@ structure Topo where
   sub : Nat → List Nat
   anc : Nat → List Nat
 
+/-- one node's `_frozen_cache`: a dictionary from the key `(function name, self, *args, **kwargs)` — here a
+number `q` standing for the cached function together with its arguments — to the stored answer, an
+answer being identified by the function/arguments it was computed for and the version of the subtree
+it was computed from. Python `dict` semantics: first entry with an equal key. -/
+abbrev FCache := List (Nat × (Nat × Nat))
+
+def FCache.lookup (c : FCache) (q : Nat) : Option (Nat × Nat) := (c.find? (·.1 == q)).map (·.2)
+
 structure FState where
   frozen : Nat → Bool
-  /-- version of the subtree the cached answers were computed from -/
-  cache : Nat → Option Nat
+  /-- per node: key ↦ (function/arguments the stored answer was computed for, version of the subtree) -/
+  cache : Nat → FCache
   version : Nat → Nat
 
 inductive FOp where
-  /-- any cached query (`prior_count`, `paths`, `priors`, `instance_from_vector`, `info` …) -/
-  | query (n : Nat)
+  /-- a cached query (`prior_count`, `paths`, `priors`, `instance_from_vector`, `info` …) on node `n`;
+  `q` stands for the function together with its arguments (the cache key without `self`) -/
+  | query (n : Nat) (q : Nat)
   | freeze (n : Nat)
   | unfreeze (n : Nat)
   /-- assignment of a parameter or component on node `n` (also `append`, `remove`, `__setitem__`) -/
@@ -35,27 +44,28 @@ inductive FOp where
   deriving Repr, Inhabited
 
 inductive FOut where
-  /-- the query was answered from the composition at this version -/
-  | answered (version : Nat)
+  /-- the query was answered with the answer of function/arguments `q` computed from the composition
+  at this version -/
+  | answered (q : Nat) (version : Nat)
   | rejected
   | done
   deriving Repr, Inhabited, DecidableEq
 
-def FState.init : FState := { frozen := fun _ => false, cache := fun _ => none, version := fun _ => 0 }
+def FState.init : FState := { frozen := fun _ => false, cache := fun _ => [], version := fun _ => 0 }
 
 def fstep (T : Topo) (s : FState) : FOp → FState × FOut
-  | .query n =>
+  | .query n q =>
       if s.frozen n then
-        match s.cache n with
-        | some v => (s, .answered v)
-        | none => ({ s with cache := fun k => if k = n then some (s.version n) else s.cache k },
-                   .answered (s.version n))
-      else (s, .answered (s.version n))
+        match (s.cache n).lookup q with
+        | some (q', v) => (s, .answered q' v)
+        | none => ({ s with cache := fun k => if k = n then s.cache n ++ [(q, (q, s.version n))] else s.cache k },
+                   .answered q (s.version n))
+      else (s, .answered q (s.version n))
   | .freeze n =>
       ({ s with frozen := fun k => if k ∈ T.sub n then true else s.frozen k }, .done)
   | .unfreeze n =>
       ({ s with frozen := fun k => if k ∈ T.sub n then false else s.frozen k,
-                cache := fun k => if k ∈ T.sub n then none else s.cache k }, .done)
+                cache := fun k => if k ∈ T.sub n then [] else s.cache k }, .done)
   | .modify n =>
       if s.frozen n then (s, .rejected)
       else ({ s with version := fun k => if k = n ∨ k ∈ T.anc n then s.version k + 1 else s.version k },
